@@ -46,6 +46,16 @@ inline mpz_class round_q(mpq_class const& t, Mode m)
 
 // Src: floating-point type, built-in integer or scaled_integer; Dst: integer-like destination (possibly a wrapper whose
 // own tag is the rounding tag). Form 0: cnl::convert<Tag, Dst>{}(src); 1: Dst{src}; 2: assignment
+// the representation one level down (a built-in integer is its own)
+template<class T, bool Native>
+struct inner_rep {
+    using type = T;
+};
+template<class T>
+struct inner_rep<T, false> {
+    using type = cnl::_impl::rep_of_t<T>;
+};
+
 template<class Tag, class Src, class Dst, int Form, bool OverflowChecked = false>
 struct Conv {
     static constexpr bool from_float = std::is_floating_point_v<Src>;
@@ -91,7 +101,12 @@ struct Conv {
             else if (mode == FLOOR && DI::is_scaled && t < 0 && !exact)
                 cause = "float-to-scaled-truncates-negative/";
         } else {
-            using SRep0 = typename SI::rep;
+            // a source whose representation is itself a rounding_integer scales by dividing that rounding_integer (as construction does)
+            using SRepW = typename SI::rep;
+            using SRepI = typename inner_rep<SRepW, is_native_int_v<SRepW>>::type;
+            constexpr bool rounding_rep = !is_native_int_v<SRepW> && is_native_int_v<SRepI>;
+            using SRep0 = std::conditional_t<rounding_rep, SRepI, SRepW>;
+            constexpr int FormE = rounding_rep ? 1 : Form;
             if constexpr (is_native_int_v<SRep0>) {
                 using PS = decltype(+std::declval<SRep0>());
                 int sh = DE - SI::exponent;
@@ -100,7 +115,7 @@ struct Conv {
                     cause = "shifted-source-exceeds-source-type/";  // the C04 finding
                 else if (sh > 0 && biasing) {
                     mpz_class unit_in_src = zpow(radix, sh);
-                    if (Form >= 1 && mode == HALF_UP && is_signed_int_v<SRep0> && zs == zmin<SRep0>())
+                    if (FormE >= 1 && mode == HALF_UP && is_signed_int_v<SRep0> && zs == zmin<SRep0>())
                         cause = "abs-of-lowest/";  // construction divides through rounding_integer: the C08 finding
                     else if (!fits<SRep0>(unit_in_src))
                         cause = "destination-unit-not-representable-in-source/";
@@ -110,7 +125,7 @@ struct Conv {
                         if (!fits<PS>(b)) cause = "bias-overflows-source-rep/";
                         // construction/assignment divide through rounding_integer, which biases the magnitude
                         mpz_class mb = abs(zs) + (unit_in_src - (zs < 0 ? 1 : 0)) / 2;
-                        if (Form >= 1 && mode == HALF_UP && !fits<PS>(mb)) cause = "bias-overflows-source-rep/";
+                        if (FormE >= 1 && mode == HALF_UP && !fits<PS>(mb)) cause = "bias-overflows-source-rep/";
                     }
                 }
             }
